@@ -23,7 +23,7 @@ OBLIGATIONS = [NS + t for t in [
     "convFft_total", "convImg_total", "scene_total", "fourier_pointsource_total", "fourier_sersic_total",
     "mogComps_amp_sum", "fourier_total_reduction", "hybrid_sersic_total", "pixel_sersic_total", "total_add", "total_smul",
     "sersic_pointsource_split", "doublesersic_split", "component_total_scales", "sersic2d_eq_sersicOfZ", "sersic_radial_norm",
-    "repo_bn_pos",
+    "repo_bn_pos", "hat_partition", "pixel_pointsource_total",
 ]] + ["Pysersic.Render.synth_dc", "Pysersic.Render.sum_rootE", "Pysersic.Props.C03.psfFft_dc"]
 MIRRORED_FILES = ["pysersic/rendering.py"]
 ASSUMPTIONS = [
